@@ -136,4 +136,114 @@ theorem runReads_terminates (R : Refines read Inv exp isEof) (P : Progress read 
       rw [lastErr_cons_ne _ _ hne]
       exact he
 
+/-! ### relational form: the expected bytes are tied to the state by a relation -/
+
+/-- `Rel s E`: in state `s` the reader still has to hand out exactly `E`. -/
+structure RefinesR (read : σ → Nat → (Bytes × Option ε) × σ) (Rel : σ → Bytes → Prop)
+    (isEof : ε → Prop) : Prop where
+  step_ok : ∀ s E k d s', Rel s E → read s k = ((d, none), s') → ∃ E', E = d ++ E' ∧ Rel s' E'
+  step_end : ∀ s E k d e s', Rel s E → read s k = ((d, some e), s') →
+    (∃ t, E = d ++ t) ∧ (isEof e → E = d)
+
+variable {Rel : σ → Bytes → Prop}
+
+theorem runReadsR_prefix (R : RefinesR read Rel isEof) (ks : List Nat) (s : σ) (E : Bytes) (h : Rel s E) :
+    ∃ t, E = outBytes (runReads read s ks).1 ++ t := by
+  induction ks generalizing s E with
+  | nil => exact ⟨E, by simp [runReads, outBytes]⟩
+  | cons k ks ih =>
+    unfold runReads
+    rcases hr : read s k with ⟨⟨d, e⟩, s'⟩
+    cases e with
+    | none =>
+      obtain ⟨E', he, hi⟩ := R.step_ok s E k d s' h hr
+      obtain ⟨t, ht⟩ := ih s' E' hi
+      refine ⟨t, ?_⟩
+      simp only [outBytes_cons]
+      rw [he, ht, List.append_assoc]
+    | some e =>
+      obtain ⟨⟨t, ht⟩, _⟩ := R.step_end s E k d e s' h hr
+      exact ⟨t, by simp [outBytes, ht]⟩
+
+theorem runReadsR_eof (R : RefinesR read Rel isEof) (ks : List Nat) (s : σ) (E : Bytes) (h : Rel s E)
+    (e : ε) (he : lastErr (runReads read s ks).1 = some e) (heof : isEof e) :
+    outBytes (runReads read s ks).1 = E := by
+  induction ks generalizing s E with
+  | nil => simp [runReads, lastErr] at he
+  | cons k ks ih =>
+    unfold runReads at he ⊢
+    rcases hr : read s k with ⟨⟨d, e'⟩, s'⟩
+    rw [hr] at he
+    cases e' with
+    | none =>
+      obtain ⟨E', hx, hi⟩ := R.step_ok s E k d s' h hr
+      simp only at he ⊢
+      have hne : (runReads read s' ks).1 ≠ [] := by
+        intro hnil
+        rw [hnil] at he
+        simp [lastErr] at he
+      rw [lastErr_cons_ne _ _ hne] at he
+      rw [outBytes_cons, ih s' E' hi he, hx]
+    | some e' =>
+      simp only [lastErr_single] at he
+      cases he
+      obtain ⟨_, hx⟩ := R.step_end s E k d e s' h hr
+      simp [outBytes, hx heof]
+
+/-- Progress with respect to a measure: every non-empty read that does not end the stream
+decreases `μ` (bytes still expected, frames still to parse, …). -/
+def ProgressR (read : σ → Nat → (Bytes × Option ε) × σ) (Rel : σ → Bytes → Prop) (μ : σ → Nat) : Prop :=
+  ∀ s E k d s', Rel s E → 0 < k → read s k = ((d, none), s') → μ s' < μ s
+
+theorem runReadsR_terminates (R : RefinesR read Rel isEof) (μ : σ → Nat) (P : ProgressR read Rel μ)
+    (ks : List Nat) (s : σ) (E : Bytes) (h : Rel s E)
+    (hpos : ∀ k ∈ ks, 0 < k) (hlen : μ s < ks.length) :
+    ∃ e, lastErr (runReads read s ks).1 = some e := by
+  induction ks generalizing s E with
+  | nil => simp at hlen
+  | cons k ks ih =>
+    unfold runReads
+    rcases hr : read s k with ⟨⟨d, e'⟩, s'⟩
+    cases e' with
+    | some e' => exact ⟨e', rfl⟩
+    | none =>
+      obtain ⟨E', _, hi⟩ := R.step_ok s E k d s' h hr
+      have hd := P s E k d s' h (hpos k (by simp)) hr
+      have hl : μ s' < ks.length := by
+        simp only [List.length_cons] at hlen
+        omega
+      obtain ⟨e, he⟩ := ih s' E' hi (fun k hk => hpos k (List.mem_cons_of_mem _ hk)) hl
+      refine ⟨e, ?_⟩
+      simp only
+      have hne : (runReads read s' ks).1 ≠ [] := by
+        intro hnil
+        rw [hnil] at he
+        simp [lastErr] at he
+      rw [lastErr_cons_ne _ _ hne]
+      exact he
+
+/-- The error a run ends with satisfies whatever every terminal step satisfies. -/
+theorem runReadsR_lastErr (R : RefinesR read Rel isEof) (Q : ε → Prop)
+    (hQ : ∀ s E k d e s', Rel s E → read s k = ((d, some e), s') → Q e)
+    (ks : List Nat) (s : σ) (E : Bytes) (h : Rel s E) (e : ε)
+    (he : lastErr (runReads read s ks).1 = some e) : Q e := by
+  induction ks generalizing s E with
+  | nil => simp [runReads, lastErr] at he
+  | cons k ks ih =>
+    unfold runReads at he
+    rcases hr : read s k with ⟨⟨d, e'⟩, s'⟩
+    rw [hr] at he
+    cases e' with
+    | some e' =>
+      simp only [lastErr_single, Option.some.injEq] at he
+      subst he
+      exact hQ s E k d _ s' h hr
+    | none =>
+      simp only at he
+      obtain ⟨E', _, hi⟩ := R.step_ok s E k d s' h hr
+      have hne : (runReads read s' ks).1 ≠ [] := by
+        intro h0; rw [h0] at he; simp [lastErr] at he
+      rw [lastErr_cons_ne _ _ hne] at he
+      exact ih s' E' hi he
+
 end Req.C02
